@@ -504,6 +504,7 @@ DUMMY = ('metadata', 'annotations', 'kopf.zalando.org/touch-dummy')
                   'sleep_interruptible_and_not_longer_than_delay', 'touch_only_after_full_sleep', 'immediate_touch',
                   'touch_is_fresh_and_separate', 'returns_last_version_and_first_remaining', 'only_patching_errors_escape'],
          canaries=['canary.always_applied', 'canary.never_touches', 'canary.never_sleeps'],
+         clause_props={'no_lost_retrigger': ['C03'], 'quiescent_iff_nothing_to_do': ['C03'], 'immediate_touch': ['C03']},
          trusted=['application.patch_and_check by contract A2 (+A3): never modifies the patch; empty patch -> no request, (None, None); a patch with fields -> at least one PATCH request; a patch with fns only -> zero or more requests; returns (version | None, remaining | None) or raises an APIError',
                   'aiotime.sleep by contract T1 (pyvc.stubs.make_sleep)',
                   'progress_storage.touch by contract E5: writes `value` into the patch at the dummy field iff it differs from the value stored in the body'],
@@ -634,7 +635,7 @@ def A1(vc):
     # the sleep
     vc.ensure('sleep_interruptible_and_not_longer_than_delay', len(sleeps) <= 1)
     for ev in sleeps:
-        _, m, wakeup, res, how = ev
+        _, m, wakeup, res, how = ev[:5]
         vc.ensure('sleep_interruptible_and_not_longer_than_delay', wakeup is pressure)
         vc.ensure('sleep_interruptible_and_not_longer_than_delay', And(has_delay, m > 0, *[m <= d for d in delays]))
     # (d) the touch
